@@ -43,7 +43,7 @@ pub fn tools_for(id: &str) -> (bool, Option<&'static str>, bool) {
         "C11" => (false, Some("reserialise"), false),
         "C12" => (true, Some("observe"), false),
         "C13" => (true, None, false),
-        "C14" => (false, None, true),
+        "C14" => (false, Some("pipeline"), true),
         "C16" => (true, None, false),
         "C20" => (true, None, false),
         _ => (false, None, false),
